@@ -157,6 +157,12 @@ func c20Matrix(i int64) c20Case {
 	cs.Files["deep.p"] = "add_key(from_deep, 2)\nuse(\"deeper.ppl\")\n"
 	cs.Files["deeper.ppl"] = "set_tag(deepest, \"yes\")\n"
 	cs.Files["notes.txt"] = "nosuch_function()\n"
+	// sub-folders with scripts named like the workspace's own (sorting before and after them)
+	cs.Files["zlib/sel.p"] = "add_key(from_nested_decoy, 1)\n"
+	cs.Files["zz/lib.p"] = "add_key(nested_lib, 1)\n"
+	cs.Files["old/deep.p"] = "add_key(nested_deep, 1)\n"
+	cs.Files["a_dir/sel.p"] = "add_key(from_early_decoy, 1)\n"
+	cs.Files["zlib/more/deeper.ppl"] = "add_key(nested_deeper, 1)\n"
 	if crlf {
 		for n, t := range cs.Files {
 			cs.Files[n] = strings.ReplaceAll(t, "\n", "\r\n")
@@ -254,6 +260,9 @@ func (c20) build(c *mon.Ctx) c20Case {
 	}
 	cs.Files["notes.txt"] = "nosuch_function() this is not a script\n"
 	cs.Files["main.p.bak"] = "add_key(from_backup, 1)\n"
+	cs.Files["zsub/"+cs.Script] = "add_key(from_nested_decoy, 1)\n"
+	cs.Files["zsub/"+libName] = "add_key(nested_lib, 1)\n"
+	cs.Files["0sub/deep.p"] = "a b c\n"
 	if r.Intn(4) == 0 {
 		// files saved with CRLF line ends (the scripts are then these very bytes for the library too)
 		for n, t := range cs.Files {
@@ -451,6 +460,7 @@ func (k c20) Run(c *mon.Ctx, workload string, i int64) {
 	os.MkdirAll(ws, 0o755)
 	os.MkdirAll(filepath.Join(ws, "subdir.p"), 0o755)
 	for name, text := range cs.Files {
+		os.MkdirAll(filepath.Dir(filepath.Join(ws, name)), 0o755)
 		os.WriteFile(filepath.Join(ws, name), []byte(text), 0o644)
 	}
 	args := []string{"run", "-s", cs.Script, "-t", cs.InType, "--output-type", cs.OutType}
@@ -458,7 +468,8 @@ func (k c20) Run(c *mon.Ctx, workload string, i int64) {
 	if cs.Mode == "workspace" {
 		args = append(args, "-w", ws)
 		for name, text := range cs.Files {
-			if e := filepath.Ext(name); e == ".p" || e == ".ppl" {
+			// the workspace is the .p / .ppl files OF the directory (files in sub-folders are not part of it)
+			if e := filepath.Ext(name); (e == ".p" || e == ".ppl") && !strings.Contains(name, "/") {
 				scripts[name] = text
 			}
 		}
